@@ -162,6 +162,13 @@ def runConn (f : List String) (bytes : Array Nat) (reqOffsets : List Nat) (wins 
               unfinishedMain := 0, unfinishedConst := 0 }
   | some (text, rest) =>
     let h := hdrOf text
+    let hdrLine := s!"header resx={h.resx} resy={h.resy} fps={h.fps} framesize={h.fsize} brand={hexStr h.brand} " ++
+      s!"model={hexStr h.model} serial={h.serial} firmware={hexStr h.firmware}"
+    -- `frameParser` (regenerated fact `Facts.frameParserMap`, `Props.FactsWiring.frame_parser_selection`): flir lepton3 /
+    -- lepton3.5 / boson; for any other camera the connection is refused after the header and nothing is recorded
+    if !(h.brand == "flir" && (h.model == "lepton3" || h.model == "lepton3.5" || h.model == "boson")) then
+      { lines := ["conn error", "badreports 0", hdrLine], mainFiles := [], constFiles := [], unfinishedMain := 0, unfinishedConst := 0 }
+    else
     let c := cfgOf f h
     let (items, ending) := Socket.parseFrames h.fsize (rest.length + 2) rest
     let hdrLen := bytes.size - rest.length
@@ -176,8 +183,6 @@ def runConn (f : List String) (bytes : Array Nat) (reqOffsets : List Nat) (wins 
     let testOpen := (sel fun fl => fl.kind == .test && !fl.closed).length
     let constOpen := (sel fun fl => fl.kind == .const && !fl.closed).length
     let conn := match ending with | .eofAtBoundary => "conn eof" | .truncated => "conn truncated"
-    let hdrLine := s!"header resx={h.resx} resy={h.resy} fps={h.fps} framesize={h.fsize} brand={hexStr h.brand} " ++
-      s!"model={hexStr h.model} serial={h.serial} firmware={hexStr h.firmware}"
     { lines := [conn, s!"badreports {p.badFrames}", hdrLine],
       mainFiles := mainDone.map fun (i, fl) => fun lab k => fileLines f h (lab.headD "main") k fl (bgs.getD i #[]) frozen c.lepton,
       constFiles := constDone.map fun (i, fl) => fun lab k => fileLines f h (lab.headD "const") k fl (bgs.getD i #[]) frozen c.lepton,
